@@ -471,3 +471,8 @@ func hang[C any](id, test string, c C) {
 	Flush()
 	os.Exit(3)
 }
+
+// SaveFound writes a violating case found outside Check (fuzz targets) as a replay file.
+func SaveFound[C any](id, test string, c C, out Outcome) string {
+	return saveFound(id, test, canon(c), out)
+}
